@@ -546,9 +546,11 @@ def run(ctx: Context, rep) -> None:
                                               else None)
             rets = [r for r in m.body_nodes() if isinstance(r, ast.Return)]
             from sa.norm import canon as _canon
-            ok = given is not None and bool(rets) and all(
+            from sa.rules.common import identity_validator
+            ok = given is not None and bool(rets) and (all(
                 r.value is not None and _canon(m, r.value) == given
-                for r in rets)
+                for r in rets) or (given != "self" and
+                                   identity_validator(ctx, m)))
             rep.ob("C20.validators", ok, loc=m.loc(), where=m.qualname,
                    construct=f"@{decos[0][:40]} returns " + ", ".join(
                        short(r.value, 30) for r in rets if r.value is not None),
